@@ -4,7 +4,7 @@ invariant and the progress measure. -/
 set_option linter.unusedSectionVars false
 set_option linter.unusedSimpArgs false
 namespace Juniper.Proofs.MergeChans
-open Juniper.Model.Merge
+open Juniper.Model.Merge Juniper.Facts
 
 variable {V : Type} [HasNil V]
 
@@ -112,6 +112,17 @@ theorem good (n : Nat) : Good V n := by
   · subst h3; exact good_3
   exact good_reflect (by omega)
 
+
+/-- Facts of the dispatch that the model does not interpret (argument order of the `merge2`/`merge3`
+calls, the `ok` test of the reflect path): a change makes this obligation fail. -/
+theorem dispatch_facts :
+    Juniper.Gen.Merge.dispatch2Body = ["merge2(out, in[0], in[1])", "return"] ∧
+    Juniper.Gen.Merge.dispatch3Body = ["merge3(out, in[0], in[1], in[2])", "return"] ∧
+    Juniper.Gen.Merge.reflectOkCond = "ok" ∧
+    Juniper.Gen.Merge.merge2Params = ["out", "in0", "in1"] ∧
+    Juniper.Gen.Merge.merge3Params = ["out", "in0", "in1", "in2"] ∧
+    sameArms Juniper.Gen.Merge.merge2Arms [.recv "in0", .recv "in1"] = true ∧
+    sameArms Juniper.Gen.Merge.merge3Arms [.recv "in0", .recv "in1", .recv "in2"] = true := by decide
 
 /-! ### inversion of `step` -/
 
